@@ -69,6 +69,37 @@ func init() {
 		"time.After": func(m *Machine, fr *frame, fn *ssa.Function, a []Value) Value {
 			return m.after(m.concretize(a[0].(T), true))
 		},
+		// time.NewTimer / (*Timer).Stop / Reset: the timer object is a real time.Timer value whose C is a virtual-time channel
+		"time.NewTimer": func(m *Machine, fr *frame, fn *ssa.Function, a []Value) Value {
+			pt := fn.Signature.Results().At(0).Type().(*types.Pointer)
+			cell := new(Value)
+			st := m.zero(pt.Elem()).(Struct)
+			ch := m.after(m.concretize(a[0].(T), true))
+			st[0] = ch
+			*cell = st
+			if m.timerObjs == nil {
+				m.timerObjs = map[*Value]*ChanObj{}
+			}
+			m.timerObjs[cell] = ch
+			return cell
+		},
+		"(*time.Timer).Stop": func(m *Machine, fr *frame, fn *ssa.Function, a []Value) Value {
+			m.markVisible()
+			ch := m.timerObjs[a[0].(*Value)]
+			return m.C.BoolC(m.cancelTimer(ch))
+		},
+		"(*time.Timer).Reset": func(m *Machine, fr *frame, fn *ssa.Function, a []Value) Value {
+			m.markVisible()
+			ch := m.timerObjs[a[0].(*Value)]
+			was := m.cancelTimer(ch)
+			d := m.concretize(a[1].(T), true)
+			t := &timer{when: m.now + d, ch: ch}
+			if d <= 0 {
+				t.when = m.now
+			}
+			m.timers = append(m.timers, t)
+			return m.C.BoolC(was)
+		},
 		"time.Since": func(m *Machine, fr *frame, fn *ssa.Function, a []Value) Value {
 			t := a[0].(Struct)
 			return m.C.BvBin(smt.OBvSub, m.C.BVC(uint64(m.now), 64), t[1].(T))
